@@ -338,7 +338,7 @@ pub fn check_hay(
             Ok(Ran::Pos(p)) => {
                 r.evaluations += 1;
                 problem = judge(s.kind.sem(), p, needle, hay, s.built.pair());
-                if problem.is_none() && s.kind.must_not_alloc() && a1 != a0 {
+                if problem.is_none() && s.kind.search_must_not_alloc() && a1 != a0 {
                     problem = Some(("alloc", format!("made {} heap allocation(s)", a1 - a0)));
                 }
                 #[cfg(feature = "vn")]
